@@ -5,7 +5,10 @@ Mathlib modules imported by the property's proof files, number of `decide +kerne
 import glob, importlib.util, json, os, re, sys
 HERE = os.path.dirname(os.path.abspath(__file__)); VERIF = os.path.dirname(HERE)
 sys.path.insert(0, HERE)
-GEN = {"C02": "TetlProofs/C02/Props.lean (gen/c02_props.py, from the other properties' theorem statements)",
+GEN = {"C01": "Tetl/C01/GenSize.lean (gen/sizetype.py: the smallest_size_t threshold chain, storage selection and layout switch as the header spells them)",
+       "C10": "Tetl/C10/Gen.lean (gen/translate.py: the overflow checkers, abs, parseDigit for every instantiated type)",
+       "C15": "Tetl/C15/GenBuiltins.lean (gen/c15_defs.py: trait -> builtin / defining formula, g++ and clang branches), GenLimits.lean (gen/c15_limits.py: numeric_limits members as spelled)",
+       "C02": "TetlProofs/C02/Props.lean (gen/c02_props.py, from the other properties' theorem statements)",
        "C05": "Tetl/C05/Sites.lean (gen/sites.py)", "C11": "Tetl/C11/Gen.lean (gen/translate.py)",
        "C13": "Tetl/C13/Dispatch.lean (gen/dispatch.py)", "C18": "Tetl/C18/Gen.lean, GenW.lean (gen/translate.py)"}
 rows = []
